@@ -32,9 +32,9 @@ class C18(Prop):
         "PrefVerif.Specs.partitionCert_iff",
         "PrefVerif.Specs.spOnSubset_iff",
     ]
-    rule = ("strict complete profiles with 1-6 alternatives (odd and even), 1-4 distinct orders, random and planted "
+    rule = ("strict complete profiles with 1-7 alternatives (odd and even, ids from 0 or 1 or sparse), 1-4 distinct orders, random and planted "
             "(union of single-peaked blocks), every bound k from 1 to m; non-trivial = >= 2 orders and >= 3 alternatives")
-    budget = {"quick": 120, "thorough": 1200}
+    budget = {"quick": 500, "thorough": 5000}
     anchors = [("preflibtools.properties.subdomains.ordinal.singlepeaked.k_alternative_partition", n) for n in
                ("k_alt_partition_approx", "k_alternative_partition_brut_force", "dfs", "extend",
                 "singleton_pair_combinations")] + \
@@ -46,8 +46,10 @@ class C18(Prop):
 
     def generate(self, rng, n, deep=False):
         for i in range(n):
-            m = rng.choice([1, 2, 3, 3, 4, 5, 5, 6])
-            alts = gen.alt_ids(rng, m)
+            m = rng.choice([1, 2, 3, 4, 5, 5, 6, 6, 6, 7])
+            alts = gen.alt_ids(rng, m, zero_ok=True)
+            if rng.random() < 0.3:
+                alts = list(range(0, m))
             nn = rng.randint(1, 4)
             if rng.random() < 0.4:
                 axis = gen.perm(rng, alts)
@@ -91,7 +93,7 @@ class C18(Prop):
         if a[0] == "ok" and isinstance(a[1], list):
             certs["axes"] = a[1]
         reqs.append({"op": "dom.nearly", "alts": case["alts"], "orders": [[[x] for x in o] for o in case["orders"]],
-                     "brute": len(case["alts"]) <= 6, "certs": certs})
+                     "brute": len(case["alts"]) <= 7, "certs": certs})
         reqs.append({"op": "kalt.partition", "alts": case.get("store", case["alts"]), "orders": case["orders"]})
         for k, r in obs["brute"].items():
             c = {"axes2": r[1]} if r[0] == "ok" and isinstance(r[1], list) else {}
